@@ -48,6 +48,11 @@ CHECKS = {
         text="Every svd class of Spectral.tla (all shapes <= 4x4 / 5x5 incl. wide and 1 x n, every rank pattern) plus its replica scaled by 2^-200..2^200, and structure classes for all shapes <= 5x5 (integer, pure imaginary, upper triangular with zero-real-part diagonal, zero column, zero matrix, scaled Gaussian) and random Gaussian shapes <= 6x6: output shapes, orthonormal Q, triangular R and A = QR are measured with the harness' own arithmetic and bounded by the trace spec. No sign convention is assumed.",
         note="Known finding (recorded): rank-deficient leading columns. Trusted: oracle product; bound 1024 units.",
         design_ref="5/C06"),
+    "C08": dict(
+        technique="Spectral.tla Hermitian class space (every eigenvalue multiplicity/sign pattern, exact spectrum from TLC) run through tridiagonalize / quaternion_eigendecomposition; residuals judged by MeasureTrace.tla",
+        text="Every Hermitian class A = U diag(lam) U^H (n <= 4 quick / 5 thorough; lam over {-4,-1,0,2,4}(+-5) non-increasing: all-equal, zeros, mixed sign) with exactly unitary dyadic U, plus its 2^-27 / 2^27 scaled replica, and structure classes (diagonal with repeats, zero, real tridiagonal, integer with zero sub-columns, integer dense, rank one, Gaussian scaled 1e-8..1e8): P unitary, B real symmetric tridiagonal (exact pattern), P A P^H = B; eigenvalues real and equal to the known multiset, V unitary, A V = V Lambda, entry points agree. Non-Hermitian (5% margin) and non-square input must raise.",
+        note="Trusted: oracle product, eigvalsh of the complex adjoint for non-constructed inputs; bound 1024 units.",
+        design_ref="5/C08"),
 }
 
 NOT_YET = "check not built yet in this round; see DESIGN.md section 5"
